@@ -204,3 +204,43 @@ fn bprime_aggregate_up_to_3_lines() {
     println!("BPRIME evaluations={n}");
     assert!(bad.is_none(), "aggregate violates the statement on:\n{}", bad.unwrap());
 }
+
+// ---------------------------------------------------------------------------
+// C08, tier B′ (bounded-exhaustive, native): the module name. For EVERY combination of
+//   mapped path  : 8 paths (plain, versioned .so.N, spaces, non-ASCII, trailing slash-less root file, relative)
+//   SONAME       : 4 names (different from / equal to the file name, with version, non-ASCII)
+//   executable   : yes / no          file offset : 0 / 0x2000
+// the effective path is the mapped path with its last component replaced by the SONAME — or, when an
+// executable segment is mapped from a non-zero offset, with the SONAME appended — and the reported file
+// name is the SONAME. (The SONAME is passed in, as `mappings::write` does after reading it from memory.)
+// ---------------------------------------------------------------------------
+#[test]
+fn bprime_effective_module_name() {
+    let paths = ["/usr/lib/libfoo.so", "/usr/lib/libfoo.so.1.2.3", "/opt/my app/lib bar.so", "/opt/caf\u{e9}/lib\u{4e16}.so",
+                 "/libroot.so", "/data/app/base.apk", "/a/b/c/d/e/f.so.6", "/x/y.so.1.2.3rc4"];
+    let sonames = ["libother.so.2", "libfoo.so", "lib\u{e9}.so", "libnative.so"];
+    let mut n = 0;
+    for p in paths {
+        for s in sonames {
+            for exec in [false, true] {
+                for off in [0usize, 0x2000] {
+                    let m = MappingInfo {
+                        start_address: 0x1000, size: 0x2000,
+                        system_mapping_info: SystemMappingInfo { start_address: 0x1000, end_address: 0x3000 },
+                        offset: off,
+                        permissions: if exec { MMPermissions::READ | MMPermissions::EXECUTE } else { MMPermissions::READ },
+                        name: Some(OsString::from(p)),
+                    };
+                    let (path, file_name, _v) = m.get_mapping_effective_path_name_and_version(Some(s.to_string())).expect("effective name");
+                    n += 1;
+                    // reference, on plain strings: directory part = everything up to and including the last '/'
+                    let dir_end = p.rfind('/').map(|i| i + 1).unwrap_or(0);
+                    let want = if exec && off != 0 { format!("{p}/{s}") } else { format!("{}{s}", &p[..dir_end]) };
+                    assert_eq!(path.to_string_lossy(), want, "path={p:?} soname={s:?} exec={exec} offset={off:#x}");
+                    assert_eq!(file_name, s);
+                }
+            }
+        }
+    }
+    println!("BPRIME evaluations={n}");
+}
